@@ -255,8 +255,8 @@ func genC07(g *G) {
 		emit("1.2.3.4 " + good + " a..b")
 		emit("::1 " + good)
 	}
-	// a names part longer than 64 KiB (thorough tier only: the extracted model needs minutes for such a line)
-	if !g.Quick() {
+	// a names part longer than 64 KiB
+	{
 		var fs []string
 		for i := 0; i < 340; i++ {
 			fs = append(fs, strings.Repeat(string(rune('a'+i%26)), 60)+"."+strings.Repeat("b", 60)+"."+strings.Repeat("c", 60)+".n"+I(i))
